@@ -189,7 +189,7 @@ func raceBlocks(txt string) []string {
 }
 
 var raceAccessRe = regexp.MustCompile(`^(Read|Write|Previous read|Previous write|Atomic read|Atomic write|Previous atomic read|Previous atomic write) at `)
-var raceFuncRe = regexp.MustCompile(`^\s+(github\.com/TheManticoreProject/Manticore/\S+?)\(`)
+var raceFuncRe = regexp.MustCompile(`^\s+(github\.com/TheManticoreProject/Manticore/\S+)\(\)\s*$`)
 
 // raceKey returns the pair of outermost Manticore frames of the two access
 // stacks (sorted, module prefix stripped); "" if neither stack has one.
